@@ -9,6 +9,11 @@ from skglm.solvers import ProxNewton, LBFGS
 
 from sklearn.utils.validation import (check_is_fitted, check_array,
                                       check_consistent_length)
+try:
+    from sklearn.utils.validation import validate_data
+except ImportError:  # scikit-learn < 1.6
+    def validate_data(estimator, *args, **kwargs):
+        return estimator._validate_data(*args, **kwargs)
 from sklearn.linear_model._base import (
     LinearModel, RegressorMixin,
     LinearClassifierMixin, SparseCoefMixin, BaseEstimator
@@ -51,8 +56,8 @@ def _glm_fit(X, y, model, datafit, penalty, solver):
             accept_sparse='csc', copy=fit_intercept)
         check_y_params = dict(ensure_2d=False, order='F')
 
-        X, y = model._validate_data(
-            X, y, validate_separately=(check_X_params, check_y_params))
+        X, y = validate_data(
+            model, X, y, validate_separately=(check_X_params, check_y_params))
         X = check_array(X, 'csc', dtype=[np.float64, np.float32],
                         order='F', copy=False, accept_large_sparse=False)
         y = check_array(y, 'csc', dtype=X.dtype.type, order='F', copy=False,
@@ -1457,7 +1462,7 @@ class MultiTaskLasso(LinearModel, RegressorMixin):
                               accept_sparse='csc',
                               copy=self.copy_X and self.fit_intercept)
         check_Y_params = dict(ensure_2d=False, order='F')
-        X, Y = self._validate_data(X, Y, validate_separately=(check_X_params,
+        X, Y = validate_data(self, X, Y, validate_separately=(check_X_params,
                                                               check_Y_params))
         Y = Y.astype(X.dtype)
 
